@@ -542,3 +542,34 @@ Proof.
   destruct ind; [reflexivity|]. cbn [win]. do 3 f_equal.
   unfold consumed, nlen. cbn [length]. rewrite app_length. lia.
 Qed.
+
+(* ------------------------------------------------------------------ E. unlimited table, for the extension *)
+Definition spec_unl_sl (dbg : bool) (c : scfg) (aa : bool) (fd : CfiRd.fde) : list srow * outcome :=
+  let f := fde_in_of (sc_be c) aa fd in
+  run_spec (sparams_of f) (f_init f) (spec_end (f_asize f) (f_init f) (f_range f))
+    (decode dbg (f_dparams f) (f_cie_off f) (f_cie f)) (fde_items_sl dbg c aa fd).
+Definition within_limits_sl (dbg : bool) (cp : caps) (c : scfg) (aa : bool) (fd : CfiRd.fde) : bool :=
+  let f := fde_in_of (sc_be c) aa fd in
+  fits_run cp (sparams_of f) (f_init f) (decode dbg (f_dparams f) (f_cie_off f) (f_cie f)) (fde_items_sl dbg c aa fd).
+
+Lemma spec_of_sl_unl dbg cp c aa fd :
+  within_limits_sl dbg cp c aa fd = true -> spec_of_sl dbg cp c aa fd = spec_unl_sl dbg c aa fd.
+Proof.
+  unfold within_limits_sl, spec_of_sl, spec_unl_sl. cbv zeta. intros H.
+  match goal with |- run_spec_lim ?c ?p ?i ?e ?ci ?fi = _ => destruct (run_spec_fits c p i e ci fi) as [(_ & E)|(F & _)] end;
+    [exact E|congruence].
+Qed.
+
+Lemma uwi_sl_spec_unl_lem dbg cp c aa sec cx a items fds fd :
+  asz_ok (sc_asz c) -> cap_full (max_stack cp) 0 = false ->
+  entries_all dbg c sec = Ok (items, None) ->
+  parsed_fdes dbg c sec items = Some fds ->
+  find (fun f => covers f a) fds = Some fd ->
+  within_limits_sl dbg cp c aa fd = true ->
+  uwi_result_spec a (fst (spec_unl_sl dbg c aa fd)) (snd (spec_unl_sl dbg c aa fd))
+                  (fst (unwind_info_for_address_sl dbg cp c aa sec cx a)).
+Proof.
+  intros Hc Hcap He Hp Ef Hw.
+  pose proof (uwi_sl_spec_lem dbg cp c aa sec cx a items fds Hc Hcap He Hp) as H.
+  rewrite Ef in H. rewrite (spec_of_sl_unl dbg cp c aa fd Hw) in H. exact H.
+Qed.
